@@ -59,6 +59,8 @@ def seeded():
         hist = "reported as first built"
         if m.get("strengthened_by"):
             hist = f"{m.get('first_result', 'missed')} -> strengthened: {m['strengthened_by']}"
+        elif m.get("first_result"):
+            hist = m["first_result"]
         rows.append(f"| `{m['name']}` | {m['breaks_property']} | {m['needs_to_manifest']} | {'; '.join(rep + other) or '**none**'} | {hist} |")
     return "\n".join(rows)
 
